@@ -1542,12 +1542,20 @@ class FunctionTranslator:
             if v.ty.kind == "dict" and v.path is not None:
                 p = self.as_path(v, s)
                 cur = self.read_path(p, s)
-                if mode == "items":
+                if mode == "items" and isinstance(s.target, ast.Name):
+                    # for item in d.items(): the pairs as values
+                    if p.root in body_assigned or is_container(v.ty.val):
+                        self.fail(s, "a single target over .items() of a dict that is changed in the loop / holds objects")
+                    fresh(s.target.id, ("val", TUPLE(v.ty.key, v.ty.val)))
+                    a = b = None
+                    lst, pattern = cur, s.target.id
+                elif mode == "items":
                     a, b = targets(2)
                 else:
                     (a,), b = targets(1), None
-                fresh(a, ("val", v.ty.key))
-                if p.root in body_assigned:
+                if a is None:
+                    pass
+                elif not fresh(a, ("val", v.ty.key)) and p.root in body_assigned:
                     # values of the dict (or what hangs below them) are changed while it is iterated; its key
                     # set stays (checked at every store): iterate the keys, read the live value by key
                     lst, pattern = "map fst %s" % _paren(cur), a
